@@ -1103,6 +1103,69 @@ def helper_argument_cases(ctx):
     return n
 
 
+def nested_wrapper_cases(ctx):
+    """Wrappers over wrappers: an IOPort whose input side is a MultiPort (with and without yield_ports), a MultiPort of
+    IOPorts, a MultiPort of MultiPorts.  What was sent on a member comes out of the outermost wrapper exactly once, intact -
+    with yield_ports as the (port, message) pair the MultiPort made - by receive, poll and iter_pending, whether the
+    message was already pending in the inner wrapper or still in the member."""
+    n = 0
+    for yield_ports in (False, True):
+        for how in ('receive', 'poll', 'iter_pending', 'receive-after-inner-poll'):
+            for shape in ('ioport-over-multi', 'multi-of-ioports', 'multi-of-multis'):
+                case = {'kind': 'nested-wrappers', 'yield_ports': yield_ports, 'how': how, 'shape': shape}
+                try:
+                    e = [EchoPort(f'n{i}') for i in range(3)]
+                    if shape == 'ioport-over-multi':
+                        inner = MultiPort(e, yield_ports=yield_ports)
+                        outer = IOPort(inner, EchoPort('out'))
+                    elif shape == 'multi-of-ioports':
+                        if yield_ports:
+                            continue
+                        inner = None
+                        outer = MultiPort([IOPort(x, EchoPort('o')) for x in e])
+                    else:
+                        inner = MultiPort(e[:2], yield_ports=yield_ports)
+                        outer = MultiPort([inner, MultiPort(e[2:], yield_ports=yield_ports)])
+                    sent = []
+                    for i, port in enumerate(e):
+                        m = make_msg(i, 0, 0)
+                        port.send(m)
+                        sent.append((port, msg_tag(m)))
+                    got = []
+                    if how == 'receive-after-inner-poll' and inner is not None:
+                        first = inner.poll()             # moves everything into the inner wrapper's own queue, hands out one
+                        got.append(first)
+                    for _ in range(8):
+                        if how.startswith('receive'):
+                            x = outer.receive(block=False)
+                        elif how == 'poll':
+                            x = outer.poll()
+                        else:
+                            x = next(iter(outer.iter_pending()), None)
+                        if x is not None:
+                            got.append(x)
+
+                    def flat(x):
+                        while isinstance(x, tuple):          # (port, message) pairs, possibly nested once more
+                            x = x[1]
+                        return x
+                    tags = sorted(msg_tag(flat(x)) for x in got if isinstance(flat(x), Message))
+                    ok = len(got) == 3 and tags == sorted(t for _, t in sent)
+                    if yield_ports and shape == 'ioport-over-multi':
+                        ok = ok and all(isinstance(x, tuple) and len(x) == 2 and x[0] in e and isinstance(x[1], Message) and
+                                        (x[0], msg_tag(x[1])) in sent for x in got)
+                    elif not yield_ports:
+                        ok = ok and all(isinstance(x, Message) for x in got)
+                    ctx.check('exactly once (nothing lost, duplicated, invented)', ok, 'nested-wrappers:delivery', case,
+                              lambda: {'got': [repr(x)[:70] for x in got]})
+                    for port in e:
+                        port.closed = True
+                except Exception as exc:
+                    ctx.check('no call raises', False, f'nested-wrappers:{type(exc).__name__}', case, f'{type(exc).__name__}: {exc}')
+                n += 1
+    return n
+
+
 def mixed_call_cases(ctx, count, only=None):
     """The degenerate interleavings - senders and the receiver taking turns, call by call - with the receiver switching
     between receive(block=False), poll() and iter_pending() (fully or partly consumed) as it pleases: each message
@@ -1300,7 +1363,7 @@ def run(ctx):
     sched.uninstall()
     nstress = 0
     if sh == 2 % N:
-        k_ = helper_argument_cases(ctx)
+        k_ = helper_argument_cases(ctx) + nested_wrapper_cases(ctx)
         ctx.nontrivial(None, k_)
         ctx.extra('helper_argument_cases', k_)
         nstress += k_
@@ -1332,6 +1395,9 @@ def run(ctx):
 
 
 def replay(ctx, case):
+    if case.get('kind') == 'nested-wrappers':
+        nested_wrapper_cases(ctx)
+        return
     if case.get('kind') == 'socket-big-message':
         big_message_over_socket_cases(ctx)
         return
